@@ -2,6 +2,7 @@
 //! smart-contract engine crates of /repo (wasm-transform, wasm-chain-integration).
 //! Subcommands read ndjson behaviours exported by TLC (spec -> impl) or record ndjson traces
 //! from the real code (impl -> spec).
+mod host_run;
 mod inst_replay;
 mod mem;
 mod trie_canon;
@@ -21,6 +22,7 @@ fn main() {
     let code = match args[1].as_str() {
         "trie-replay" => trie_replay::main(rest),
         "trie-record" => trie_record::main(rest),
+        "host-run" => host_run::main(rest),
         "inst-replay" => inst_replay::main(rest),
         "wasm-run" => wasm_run::main(rest),
         "trie-canon" => trie_canon::main(rest),
